@@ -38,12 +38,13 @@ def cases(tier, seed):
         base = designs.op_cases([1, 3], ops='w+-*<xcsm', mul_max=3) + designs.op_cases([3], ops='w+', dests=('reg',))
         base += [dict(c, reset=5 % (1 << c['wd'])) for c in designs.op_cases([3], ops='w', dests=('reg',))]
         base += [dict(c, reset=0) for c in designs.op_cases([1, 3], ops='w+', dests=('reg',))]
-        base += designs.expr_cases(20, seed, n=6, maxw=4) + designs.seq_cases() + designs.misc_cases()[:10] + designs.misc_cases()[-2:]
+        base += designs.expr_cases(20, seed, n=6, maxw=4) + designs.seq_cases() + designs.misc_cases()[:10] + designs.misc_cases()[-2:] + [{'fam': 'MISC', 'kind': 'rtl_assert', 'w': 2}]
     else:
         base = designs.op_cases([1, 2, 3, 4, 8], ops='w~&|^n+-*<>=xcsm', mul_max=4) + designs.op_cases([1, 3, 8], ops='w+-', dests=('reg',))
         base += [dict(c, reset=(1 << c['wd']) - 1) for c in designs.op_cases([1, 3, 8], ops='w', dests=('reg',))]
         base += [dict(c, reset=0) for c in designs.op_cases([1, 3, 8], ops='w+x', dests=('reg',))]
         base += designs.expr_cases(300, seed, n=8, maxw=5) + designs.seq_cases(widths=(1, 4, 8)) + designs.misc_cases()
+        base += [{'fam': 'MISC', 'kind': 'rtl_assert', 'w': 2}, {'fam': 'MISC', 'kind': 'rtl_assert', 'w': 3}]
     base += [{'fam': 'C11X', 'kind': 'same_name_roms'}, {'fam': 'C11X', 'kind': 'generator_twice'}]
     for i, c in enumerate(base):
         for f in FUNCS:
@@ -243,6 +244,12 @@ def run_case(case, ob, tier):
     amems = {id(n.op_param[1]) for n in A.logic_subset('m@')}
     bmems = {id(n.op_param[1]) for n in B.logic_subset('m@')}
     ob.fact('no-shared-memory-objects', not (amems & bmems), site + ':shared-mems')
+    # rtl_assert is part of what the design does when simulated: the result asserts what the source asserts
+    if A.rtl_assert_dict:
+        bn = {w.name: (w, e) for w, e in B.rtl_assert_dict.items()}
+        ok = all(w.name in bn and bn[w.name][1] is e and bn[w.name][0] in B.wirevector_set for w, e in A.rtl_assert_dict.items())
+        ob.fact('assertions-of-the-source-are-assertions-of-the-result', ok, site + ':rtl_assert',
+                detail={'source': sorted(w.name for w in A.rtl_assert_dict), 'result': sorted(bn)})
     # the result's memories are registered with the result (and only there)
     ob.fact('result-memories-registered-with-result', mems_registered(B), site + ':memblock_by_name')
     if case['func'] in ('copy', 'opt'):
@@ -340,6 +347,8 @@ def replay(cex):
                   'no-shared-memory-objects': not ({id(n.op_param[1]) for n in A.logic_subset('m@')}
                                                    & {id(n.op_param[1]) for n in B.logic_subset('m@')}),
                   'result-memories-registered-with-result': mems_registered(B),
+                  'assertions-of-the-source-are-assertions-of-the-result': all(
+                      any(w2.name == w.name and e2 is e for w2, e2 in B.rtl_assert_dict.items()) for w, e in A.rtl_assert_dict.items()),
                   'register-reset-values-preserved': all(
                       {r.name: r.reset_value for r in B.wirevector_subset(pyrtl.Register)}.get(r.name, r.reset_value) == r.reset_value
                       for r in A.wirevector_subset(pyrtl.Register))}
